@@ -6,7 +6,9 @@ Local Open Scope N_scope.
 Inductive scenario :=
 | ScnInflight (k : N)   (* handshake: Pause is called while the handler of event k is executing *)
 | ScnIdle               (* Pause is called before Run starts; Run is started while paused *)
-| ScnStress.            (* free-running controller: pause/continue pairs at arbitrary moments *)
+| ScnStress             (* free-running controller: pause/continue pairs at arbitrary moments *)
+| ScnLive (cycles : N). (* liveness stress: back-to-back Pause / tiny spin / Continue cycles on a self-rescheduling chain,
+                           a watchdog requires the handled counter to advance after every Continue; no label log *)
 
 Record case := mk_case {
   c_par : bool;                     (* true: ParallelEngine, false: SerialEngine *)
@@ -123,8 +125,12 @@ Fixpoint brackets_ok (open : list N) (tr : list lbl) : bool :=
   end.
 
 (** ** the correspondence check: model prediction = observation *)
+Definition is_live (s : scenario) : bool := match s with ScnLive _ => true | _ => false end.
+
 Definition check_case (c : case) : bool :=
   let prog := prog_lookup (c_prog c) in
+  (* c05_continue_live: after every Continue the run proceeds; the model never gets stuck *)
+  if is_live (c_scn c) then o_done c && negb (o_early c) else
   if c_par c then
     let sf := parallel_free prog (p_width (c_init c) (c_prog c)) (c_init c) (c_fuel c) in
     listN_eqb (sortN (ended (o_trace c))) (sortN (map ev_id (p_handled sf))) &&
@@ -148,6 +154,7 @@ Definition check_case (c : case) : bool :=
         lbls_eqb (filter is_handler_lbl (o_trace c)) (rev (s_trace s)) &&
         at_most_one (o_trace c) &&    (* serial_at_most_one: every model trace is accepted *)
         negb (o_early c) && Bool.eqb (o_done c) (s_is_done s)
+    | ScnLive _ => o_done c
     end.
 
 (** ** the property on the observed behaviour, independent of the LTS *)
@@ -164,6 +171,7 @@ Fixpoint closure (fuel : nat) (prog : program) (work : list ev) : list N :=
 
 Definition holds_on (c : case) : bool :=
   let prog := prog_lookup (c_prog c) in
+  if is_live (c_scn c) then o_done c else       (* every Continue was followed by progress and the run ended *)
   quiescent (o_trace c) &&                       (* Pause is a quiescent point *)
   negb (o_early c) &&                            (* Pause did not return under a blocked, executing handler *)
   o_done c &&                                    (* after Continue the run proceeds to the end ... *)
